@@ -256,7 +256,11 @@ func execC12(x *X) {
 	sort.SliceStable(clock, func(i, j int) bool { return clock[i].instant.Before(clock[j].instant) })
 	step := 0
 	for _, cs := range explicit {
-		c12one(x, reg, loc, cs, step)
+		c12one(x, reg, loc, cs, step, false)
+		step++
+		// the same combo as left behind by an earlier calculation under another rate key:
+		// what the document receives is still the table's value, nothing it carried before
+		c12one(x, reg, loc, cs, step, true)
 		step++
 		if len(x.R.Violations) > 0 {
 			break
@@ -272,7 +276,7 @@ func execC12(x *X) {
 		} else if d < 0 {
 			continue // the clock cannot go back (only when ops were reordered by shrinking)
 		}
-		c12one(x, reg, loc, cs, step)
+		c12one(x, reg, loc, cs, step, false)
 		step++
 	}
 	x.R.SimTimeS = time.Since(t0).Seconds()
@@ -292,7 +296,7 @@ func findRate(reg *pubRegime, cat, key string) (*pubRate, bool) {
 	return nil, false
 }
 
-func c12one(x *X, reg *pubRegime, loc *time.Location, cs c12case, step int) {
+func c12one(x *X, reg *pubRegime, loc *time.Location, cs c12case, step int, stale bool) {
 	op := cs.op
 	rate, _ := findRate(reg, op.S, op.S2)
 	if rate == nil {
@@ -378,6 +382,11 @@ func c12one(x *X, reg *pubRegime, loc *time.Location, cs c12case, step int) {
 	if len(cext) > 0 {
 		combo["ext"] = cext
 	}
+	if stale {
+		combo["percent"] = "99.9%"
+		combo["surcharge"] = "9.9%"
+		x.Probe("stale-combo-values")
+	}
 	doc := map[string]any{
 		"$schema":  "https://gobl.org/draft-0/bill/invoice",
 		"$regime":  strings.ToUpper(reg.file),
@@ -439,6 +448,10 @@ func c12one(x *X, reg *pubRegime, loc *time.Location, cs c12case, step int) {
 		return
 	}
 	caseID := fmt.Sprintf("%s|%s|%s|%v|%s|%s", reg.file, op.S, op.S2, op.L, D, mode)
+	if stale {
+		mode += ", combo carrying percent 99.9% and surcharge 9.9% from before"
+		caseID += "|stale"
+	}
 	x.Case(caseID)
 	near := false
 	for _, v := range rate.Values {
